@@ -548,6 +548,40 @@ theorem C02_answer_shape (shape : List Nat) (pre : List PSlice) (idx : List Idx)
     obtain ⟨R, hR, hS⟩ := C02_preconstraint_ellipsis shape pre a b hpl ha hb hl hv
     exact ⟨R, hR, by rw [← hS]; simp [Function.comp_def]⟩
 
+/-- **the server accepts what the client asks for**: `apply_projection` rejects, before it slices, a hyperslab that
+    `check_hyperslab` finds outside the array (fix 153ff3f; `Handler.validSl` is C15's model of it: start inside the axis,
+    start < stop, stride ≥ 1, a stop beyond the extent allowed) — `serveSlab` in `remoteIndex` has no such guard.  On the
+    property's domain the guard never fires: the request has exactly one slice per axis, and every one of them passes the
+    check on the source axis it addresses.  (So the positions theorem speaks about requests the real server does slice.) -/
+theorem C02_request_passes_check_hyperslab (shape : List Nat) (pre : List PSlice) (idx : List Idx)
+    (hpl : pre.length ≤ shape.length) (h1 : AtMostOneEll idx) (hl : explicitAxes idx ≤ shape.length)
+    (hv : ValidList shape (padPre pre shape.length) (npExpandIdx idx shape.length)) :
+    (reqList shape (padPre pre shape.length) (npExpandIdx idx shape.length)).length = shape.length ∧
+    ∀ (j : Nat) (hj : j < shape.length), ∃ r,
+      (reqList shape (padPre pre shape.length) (npExpandIdx idx shape.length))[j]? = some r ∧
+      Handler.validSl shape[j] r = true := by
+  refine ⟨?_, request_list_accepted shape _ _ hv⟩
+  have hlen := validList_length hv
+  clear h1 hl hpl
+  generalize padPre pre shape.length = P at hv hlen
+  generalize npExpandIdx idx shape.length = E at hv hlen
+  induction shape generalizing P E with
+  | nil => cases P <;> cases E <;> simp_all [reqList]
+  | cons n ns ih =>
+    cases P with
+    | nil => simp at hlen
+    | cons p ps => cases E with
+      | nil => simp at hlen
+      | cons e es =>
+        simp only [reqList, List.length_cons, Nat.add_right_cancel_iff]
+        exact ih ps es hv.2.2 ⟨by simpa using hlen.1, by simpa using hlen.2⟩
+
+/-- one axis: the request for `x[1::3]` on 2 elements (`1:3:3`, last index beyond the extent) passes the check; an
+    inverted or out-of-range request — what an EMPTY selection would produce, outside the domain — does not -/
+example : Handler.validSl 2 (reqAxis 2 PSlice.all (Idx.sl ⟨some 1, none, some 3⟩)) = true ∧
+    Handler.validSl 5 ⟨some 3, some 2, some 1⟩ = false ∧ Handler.validSl 5 ⟨some 5, some 10, some 1⟩ = false := by
+  decide
+
 /-- non-vacuity of the composed statement: `x[..., -1]` and `x[1]` and `x[0, ..., ::2]` are basic indices; two
     Ellipses are not; numpy's expansion on rank 3 -/
 example : AtMostOneEll [Idx.ell, Idx.int (-1)] ∧ AtMostOneEll [Idx.int 1] ∧
